@@ -246,6 +246,127 @@ def statedb_predicates(cases, obs):
     return fails, n
 
 
+CHAIN_ENGINE = os.path.join(vf.HARNESS, "engines/trie/zz_verif_chain_proof_engine_test.go")
+
+
+def chain_cases(rng, n):
+    """Block states with funded accounts, names registered through contract/name, one contract
+    with storage variables; queried by address, by name (registered, unregistered, special)."""
+    pool = ["seedc11named", "verifnameaaa", "verifnamebbb", "contractname"]
+    cases = []
+    for ci in range(n):
+        nacc = rng.choice([3, 4, 5])
+        contract = rng.randrange(nacc)
+        names = {}
+        rounds = []
+        for ri in range(rng.choice([1, 2, 3])):
+            bal = {str(i): rng.randrange(1, 10 ** 6) for i in rng.sample(range(nacc), rng.randrange(1, nacc + 1))}
+            if ri == 0:
+                bal[str(contract)] = bal.get(str(contract), 5)
+                bal["0"] = bal.get("0", 7)
+            new = {}
+            for nm in rng.sample(pool, rng.choice([0, 1, 2]) if ri else rng.choice([1, 2])):
+                if nm not in names:
+                    # a name is registered for an account that already exists
+                    owners = [i for i in range(nacc) if any(str(i) in r["bal"] for r in rounds) or str(i) in bal]
+                    new[nm] = rng.choice(owners)
+            if ci == 0 and ri == 0:
+                new.setdefault("contractname", contract)
+            names.update(new)
+            vs = {}
+            for v in rng.sample(["x", "y", "z", "u", "w"], rng.randrange(0, 4)):
+                vs[v] = "" if (ri and rng.random() < 0.3) else "val%d" % rng.randrange(100)
+            if ri == 0:
+                vs["keep"] = "1"
+            rounds.append({"bal": bal, "names": new, "vars": vs})
+        cases.append({"nacc": nacc, "contract": contract, "rounds": rounds,
+                      "qnames": pool + ["unregistered", "aergo.system", "aergo.name"], "qvars": ["x", "y", "z", "u", "w", "keep", "never"]})
+    return cases
+
+
+def chain_check(ctx, exe):
+    """Returns (fails, corr, n)."""
+    rng = ctx.rng
+    rc, log, cbin = ctx.go_test_binary("chain", [CHAIN_ENGINE], "chain_c11.test")
+    if rc != 0:
+        raise RuntimeError("chain engine build failed:\n" + log[-3000:])
+    cases = chain_cases(rng, 3 if ctx.tier == "quick" else 60)
+    outs = [json.loads(l) for l in tg.run_engine(ctx, cbin, "TestVerifChainProofs", cases, "c11c")]
+    fails, corr, n = [], None, 0
+    qlines, qwant = [], []
+    for c, o in zip(cases, outs):
+        if o.get("err"):
+            fails.append(("chain-engine-error", "chain proof engine failed: " + o["err"], c))
+            continue
+        if o.get("sha_vec") != hashlib.sha256(b"abc").hexdigest():
+            fails.append(("chain-engine-error", "hash test vector differs", c))
+        # plain map semantics of the rounds
+        bal_hist, var_hist, owner = [], [], {}
+        bal, vars_ = {}, {}
+        for r in c["rounds"]:
+            for i, a in r["bal"].items():
+                bal[int(i)] = bal.get(int(i), 0) + a
+            for k, v in r["vars"].items():
+                if v == "":
+                    vars_.pop(k, None)
+                else:
+                    vars_[k] = v
+            owner.update(r["names"])
+            bal_hist.append(dict(bal))
+            var_hist.append(dict(vars_))
+        for x in o["obs"]:
+            n += 1
+            rep = {"case": c, "proof": {k: x[k] for k in ("label", "account", "round", "use_root", "comp", "inclusion", "key", "balance", "verified", "err")}}
+            if x["err"]:
+                fails.append(("chain-proof-error", "the node returned an error instead of a proof: " + x["err"], rep))
+                continue
+            kind = x["label"].split(":")[0]
+            if not x["verified"]:
+                if kind == "var" and x["root"] == "":
+                    fails.append(("chain-var-proof-empty-storage", "variable proof for an account without storage is taken from the account trie "
+                                  "and cannot verify against the (empty) storage root", rep))
+                else:
+                    fails.append(("chain-proof-rejected", "a proof returned by the node (%s) is rejected by a light client that derives the trie key "
+                                  "from the proof's own Key against the root the request named" % x["label"], rep))
+            # contents
+            who = None
+            if kind == "address":
+                who = int(x["label"].split(":")[1])
+            elif kind == "name" and x["label"].split(":")[1] in owner:
+                who = owner[x["label"].split(":")[1]]
+            elif kind == "query" and x["label"] == "query:contract-address":
+                who = c["contract"]
+            if who is not None:
+                exp = bal_hist[x["round"]].get(who)
+                if x["inclusion"] != (exp is not None) or (exp is not None and x["balance"] != str(exp)):
+                    fails.append(("chain-proof-content", "account proof reports a state different from what the blocks wrote", rep))
+            if kind == "var" and x["label"].startswith("var:contract-address:"):
+                vn = x["label"].split(":")[2]
+                exp = var_hist[x["round"]].get(vn)
+                if x["inclusion"] != (exp is not None) or (exp is not None and x["value"] != exp):
+                    fails.append(("chain-proof-content", "variable proof reports a value different from what the blocks wrote", rep))
+            # the same proof through the model verifier (SHA-256)
+            if x["root"] != "" or kind != "var":
+                k = ("I" if x["inclusion"] else "N") + ("C" if x["comp"] else "")
+                ap = ",".join(a if a else "." for a in (x["ap"] or [])) or "-"
+                val = x["trieval"] if x["inclusion"] else x["pv"]
+                qlines.append("VS %s %s %s %s %s %d %s %s" % (k, x["root"] or "-", x["triekey"], val or "-", x["pk"] or "-",
+                                                             x["height"] if x["comp"] else 0, x["bitmap"] or "-", ap))
+                qwant.append((x["verified"], rep))
+    if exe and qlines:
+        out = [l for l in tg.run_driver(ctx, exe, "S 616263\n" + "\n".join(qlines) + "\n") if l]
+        if not out or out[0] != hashlib.sha256(b"abc").hexdigest():
+            corr = ("SHA-256 of the OCaml driver differs from the reference", [])
+        elif len(out) - 1 != len(qwant):
+            corr = ("model driver returned %d verdicts for %d chain proofs" % (len(out) - 1, len(qwant)), [])
+        else:
+            bad = [rep for (v, rep), m in zip(qwant, out[1:]) if v != (m == "1")]
+            if bad:
+                corr = ("real verifier and model verifier (SHA-256) disagree on %d of %d proofs returned by the ChainWorker" % (len(bad), len(qwant)), bad[:2])
+        ctx.cov["chain_proofs_model_verified"] = len(qwant)
+    return fails, corr, n
+
+
 def query_line(d):
     ap = ",".join(x if x else "." for x in d["ap"]) or "-"
     return "V %s %s %s %s %s %d %s %s" % (d["kind"], d["root"] or "-", d["key"], d["value"] or "-", d["pk"] or "-",
@@ -458,10 +579,15 @@ def run(ctx):
     sf, nsdb = statedb_predicates(scases, sobs)
     fails += sf
     mark("statedb engine")
+    cf, ccorr, nchain = chain_check(ctx, exe)
+    fails += cf
+    corr = corr or ccorr
+    mark("chain engine")
+    ctx.cov["chain_proofs_verified"] = nchain
     # ---- evidence
     ctx.cov["phase_seconds"] = phases
     ctx.cov["statedb_proofs_verified"] = nsdb
-    ctx.cov["evaluations"] = nproofs + len(queries) + nsdb
+    ctx.cov["evaluations"] = nproofs + len(queries) + nsdb + nchain
     ctx.cov["traces_validated_against_impl"] = ctx.cov.get("model_proofs_compared", 0) + ctx.cov.get("model_verdicts_compared", 0)
     ctx.cov["distinct_nontrivial"] = len({(d["kind"], d["root"], d["key"], d["value"], d["pk"], tuple(d["ap"]), d["bitmap"], d["length"])
                                           for lab, d, _, _, _ in queries if lab != "honest"})
